@@ -22,7 +22,8 @@
      * the balance of [a] is slot [erckey a] of the token contract [token]; the 18-decimal
        conversions FormatDecimalForERC20/Rocket are the identity for decimal = 18 (C18).
      * objects flagged [deleted] only exist after Finalise; the model stops at Finalise.
-     * sync.Map / locks: single-threaded use.  uint64 wrap-around of nonce/refund not modelled. *)
+     * sync.Map / locks: single-threaded use.  Nonce and refund counter wrap modulo 2^64 as Go uint64 does;
+       arguments of the operations are below 2^64 (they are uint64 in the Go signatures). *)
 From stdpp Require Import gmap.
 From RecordUpdate Require Import RecordSet.
 From V.Base Require Import Hex BigEndian.
@@ -362,7 +363,10 @@ Inductive op :=
 | OGetTransient (a k : N) | OGetFT (a : N).
 
 Inductive ans :=
-| AU | AN (n : N) | AB (b : bool) | ABy (v : bytes) | AP (b1 b2 : bool) | AO (o : option N) | AL (l : list (N * N)).
+| AU | AN (n : N) | AB (b : bool) | ABy (v : bytes) | AP (b1 b2 : bool) | AO (o : option N) | AL (l : list (N * N))
+| APanic.                        (* the call panics (SubRefund beyond the counter) after the effects the model shows *)
+
+Definition u64 : N := 18446744073709551616.     (* nonce and refund counter are Go uint64: arithmetic wraps *)
 
 Definition obj_field {A} (s : state) (a : N) (f : obj -> A) (d : A) : A :=
   match objs s !! a with Some o => f o | None => d end.
@@ -375,7 +379,7 @@ Definition step (o : op) (s : state) : state * ans :=
   | OIncNonce a =>
       let s1 := ensure true a s in
       let n := obj_field s1 a o_nonce 0 in
-      (s_setnonce_raw a (n + 1) (push (ENonce a n) s1), AN (n + 1))
+      (s_setnonce_raw a ((n + 1) mod u64) (push (ENonce a n) s1), AN ((n + 1) mod u64))
   | OSetData a k v => (s_setdata a k v (ensure true a s), AU)
   | OAddBalance a n => (add_balance a n s, AU)
   | OSubBalance a n => let '(s1, l) := sub_balance a n s in (s1, AN l)
@@ -401,8 +405,11 @@ Definition step (o : op) (s : state) : state * ans :=
       let s1 := push (ELog (thash s)) s in
       (s1 <| logs := <[thash s := getlogs s (thash s) ++ [(p, logsize s)]]> (logs s) |>
           <| logsize := logsize s + 1 |>, AU)
-  | OAddRefund n => (push (ERefund (refund s)) s <| refund := refund s + n |>, AU)
-  | OSubRefund n => (push (ERefund (refund s)) s <| refund := refund s - n |>, AU)  (* panics when n > refund *)
+  | OAddRefund n => (push (ERefund (refund s)) s <| refund := (refund s + n) mod u64 |>, AU)
+  | OSubRefund n =>
+      (* the journal entry is appended first; then panic("Refund counter below zero") leaves the counter alone *)
+      (push (ERefund (refund s)) s <| refund := if refund s <? n then refund s else refund s - n |>,
+       if refund s <? n then APanic else AU)
   | OALAddr a => (al_add_addr a s, AU)
   | OALSlot a k => (al_add_slot a k s, AU)
   | OSetTransient a k v =>
